@@ -28,6 +28,8 @@ Layouts (where the payloads go):
     "misaligned"  after the final return, every payload at an offset that is 2 mod 4 (C40 only; not well-formed Dalvik)
     "first"       `goto/16 START`, payloads (aligned), START: slots   -> every 31t offset is negative
     "first-mis"   same with the payloads at 2 mod 4
+    "mid"         slot 0, `goto/16 L`, payloads (aligned), L: slot 1 ... : a table in the middle of the code, jumped over
+                  (only for skeletons with >= 1 slot and at least one payload)
   orphan = None | (kind, "before"|"after"), kind in K,S,A: one extra payload that no instruction references.
 
 Try ranges (C10/C12): `tries` = [(i, j, hk, h[, h2])]: slots i..j inclusive, hk = "t" typed handler at slot h,
@@ -56,6 +58,7 @@ BOGUS = ("Kx", "Sx", "Ax")
 BOGUS_MODES = ("mid-self", "mid-payload", "mid-payload2", "ins", "end", "beyond", "negative")
 SWITCH = ("K", "S", "Ks", "Ss")
 LAYOUTS = ("aligned", "misaligned", "first", "first-mis")
+LAYOUTS_MID = LAYOUTS + ("mid",)
 
 _E = D.enc
 _CONST = _E("const/4", 0, 0)
@@ -146,7 +149,7 @@ def try3_configs(N, patterns=("ttt", "tat")):
 
 class Built:
     __slots__ = ("sk", "tries", "layout", "orphan", "share_handler", "code", "needs_pool", "ins", "slot_off", "rtries",
-                 "dex_tries", "dex_handlers", "size", "payload_of", "payloads", "start_off", "_sizes", "_slot_units")
+                 "dex_tries", "dex_handlers", "size", "payload_of", "payloads", "start_off", "_sizes", "_slot_units", "edit")
 
     def witness(self):
         w = {"sk": [list(s) for s in self.sk]}
@@ -158,12 +161,35 @@ class Built:
             w["layout"] = self.layout
         if self.orphan:
             w["orphan"] = list(self.orphan)
+        if getattr(self, "edit", None):
+            w["edit"] = self.edit
         return w
 
 
 def from_witness(w):
-    return build(norm(w["sk"]), tuple(tuple(t) for t in w.get("tries", ())), w.get("layout", "aligned"),
-                 tuple(w["orphan"]) if w.get("orphan") else None, bool(w.get("share_handler")))
+    b = build(norm(w["sk"]), tuple(tuple(t) for t in w.get("tries", ())), w.get("layout", "aligned"),
+              tuple(w["orphan"]) if w.get("orphan") else None, bool(w.get("share_handler")))
+    if b is not None and w.get("edit"):
+        b.edit = w["edit"]
+    return b
+
+
+# History family: ONE edit of the instruction list through the public set_instructions() API between two analyses
+EDITS = ("nop1", "nop2", "nop-after-return", "self")
+
+
+def edited_code(b, edit):
+    """-> (expected code bytes after the edit, list position at which nops are inserted, number of nops)."""
+    code = b.code
+    if edit == "nop1":
+        return b"\x00\x00" + code, 0, 1
+    if edit == "nop2":
+        return b"\x00\x00\x00\x00" + code, 0, 2
+    if edit == "nop-after-return":
+        at = b.slot_off[-1]
+        pos = [i[0] for i in b.ins].index(at) + 1
+        return code[:at + 2] + b"\x00\x00" + code[at + 2:], pos, 1
+    return code, 0, 0
 
 
 def _payload_bytes(kind, rel, slot_index):
@@ -213,16 +239,23 @@ def build(sk, tries=(), layout="aligned", orphan=None, share_handler=False):
     def gsize(i, s):          # goto: forward 10t, backward 20t (goto/16), to itself 30t (goto/32; the only legal zero offset)
         return 3 if s[1] == i else (2 if s[1] < i else 1)
     sizes = [(gsize(i, s) if s[0] == "G" else UNITS.get(s[0], 1)) for i, s in enumerate(slots)]
+    # payload region: behind the final return, or (first*) before slot 0, or (mid) between slot 0 and slot 1; in the
+    # latter two cases a `goto/16` placed in front of the region jumps over it
+    split = 0 if first else (1 if layout == "mid" else None)
+    if layout == "mid" and (not plist or N < 2):
+        return None
     pos = 0
-    if first:
-        pos = 2                                                           # goto/16
-        pl, pos = lay_payloads(pos)
-    start = pos
+    start = goto_at = 0
     slot_off = []
-    for z in sizes:
+    for idx, z in enumerate(sizes):
+        if idx == split:
+            goto_at = pos
+            pos += 2                                                      # goto/16
+            pl, pos = lay_payloads(pos)
+            start = pos
         slot_off.append(pos)
         pos += z
-    if not first:
+    if split is None:
         pl, pos = lay_payloads(pos)
     total = pos
     poff = {}
@@ -289,11 +322,11 @@ def build(sk, tries=(), layout="aligned", orphan=None, share_handler=False):
             ins.append((len(out), len(b), "payload", (), desc))
             out.extend(b)
 
-    if first:
-        ins.append((0, 4, "goto", (start * 2,), None))
-        out.extend(_E("goto/16", start))
-        emit_payloads()
     for i, s in enumerate(slots):
+        if i == split:
+            ins.append((goto_at * 2, 4, "goto", (start * 2,), None))
+            out.extend(_E("goto/16", start - goto_at))
+            emit_payloads()
         o = len(out)
         assert o == slot_off[i] * 2
         k = s[0]
@@ -331,7 +364,7 @@ def build(sk, tries=(), layout="aligned", orphan=None, share_handler=False):
             pool_slots.append((o, k))
         ins.append((o, len(b), kind, tg, payload_of[i] * 2 if i in payload_of else None))
         out.extend(b)
-    if not first:
+    if split is None:
         emit_payloads()
     assert len(out) == total * 2
     raw = bytes(out)
@@ -361,6 +394,7 @@ def build(sk, tries=(), layout="aligned", orphan=None, share_handler=False):
         m.code = raw
     m._sizes = sizes
     m._slot_units = slot_off
+    m.edit = None
     set_tries(m, tries, share_handler)
     return m
 
